@@ -159,20 +159,26 @@ class Scenario:
         tcp = self.tcp
         T = self.T
 
+        cur_req = [0]
+        self.delivered_reqs = []
+
         def deliver(sock, item, when_delay, tag):
             loop = loop_of()
             g = self.generation[0]
+            req_of_item = cur_req[0]
 
             def cb():
                 if sock.closed or g != self.generation[0]:
                     return      # datagrams still in flight when their request has completed are lost (see history.py)
                 sock.rx.append(item)
                 delivered.append((world.now, tag, sock.fd))
+                self.delivered_reqs.append((world.now, req_of_item))
             loop.call_later(when_delay, cb)
 
         def on_send(sock, data, n):
             data = bytes(data)
             req = req_index_of(data)
+            cur_req[0] = req
             i = sum(1 for (_, d, _) in world.transmissions[:-1] if req_index_of(bytes(d)) == req)
             k = script.kind(i, req)
             name = KINDS[k]
